@@ -26,7 +26,7 @@ side, possibly a SIMD variant for arrays): 1 ulp each moves z by (|log10 L| + |l
 
 Explicit `lower_limit` / `upper_limit` (not part of the property text, but the repairs touch exactly their handling): the
 documented behaviour "only the load distribution between the limits is considered" = the overlap integral over the window
-(limits beyond 16 load standard deviations are moved there).  Since the follow-up repair the code integrates the smaller one
+(limits beyond 16 load standard deviations are moved there).  Since /repo 2da931b the code integrates the smaller one
 of the window's failure probability P and its complement Q within the window's load mass, so BOTH are demanded relatively:
 |got - P| <= 1e-6 P and |got - P| <= 1e-6 Q + rounding of the mass (a difference of two norm.cdf / norm.sf values: 64 ulp of
 the larger one, times 1 + x^2 in a tail at x) + rounding of the standardised limits (`limit_rounding`: log10 of the load median
@@ -457,15 +457,18 @@ class C15(Prop):
             "coincides with an integration limit +-16 exactly and within +-3 ulp of the load median, plus the round-number "
             "inputs 10^(k/20) for which it does, and a FIXED family strength_std/load_std = 1e-12 .. 1e-5 (incl. both sides of "
             "1.6e-6) x 11 load medians from z = -7 to 7); limits (explicit lower/upper limit: windows, a limit on a break point, "
-            "+-inf, tiny windows; FIXED family of 203 windows of 1 .. 15 load sd holding 1e-200 .. 1 of their load mass, load "
+            "+-inf, tiny windows; FIXED family of 203 windows of 0.5 .. 15.5 load sd holding 1e-200 .. 1 of their load mass, load "
             "median below and above the strength median); rtype (FIXED: python float / int / np.float64 / np.float32 / 0-d "
-            "array arguments, all branches: the result is a python float and the window integral); api (load_std = 0 is "
-            "pf_simple_load or refused, negative load_std is refused); simple (deterministic loads); simplearr (ndarray / Series / list strength and load against "
+            "array arguments, all branches: the result is a python float and the window integral); api (no model line; two fixed cases: "
+            "`scatter` - load_std = 0 is pf_simple_load or refused with ValueError, a negative load_std is refused or NaN - and "
+            "`shape-mismatch` - pf_arbitrary_load with load_values / load_pdf of different shapes raises ValueError); simple (deterministic loads); simplearr (ndarray / Series / list strength and load against "
             "scalar calls); state (a call sequence norm/simple/arb on ONE object against fresh objects); limit (load scatter "
             "-> 0 sequence); arb (sampled log-normal density on a refinement sequence of two-scale grids and on random nodes); "
-            "arbk (short arbitrary node lists, ascending and descending); api (shape mismatch raises ValueError).  "
+            "arbk (short arbitrary node lists, ascending and descending).  "
             "Correspondence: compiled Lean model at Float - closed form with its own Phi (series / continued fraction) AND the "
-            "code-level model pfNormLoadCode (standardised window, cdf / sf branch, quad := composite Gauss-Legendre) - vs real "
+            "code-level model pfNormLoadCode (standardised window; branch rule of /repo 2da931b: the direct integral of pdf * cdf_S, or - for "
+            "default limits with loc < 0, or when the direct integral exceeds half the window's load mass - the window's load mass minus the "
+            "integral of pdf * sf_S; load_std = 0 is the deterministic branch; quad := composite Gauss-Legendre) - vs real "
             "code, relative on pf AND on 1-pf (module docstring).  Oracle (real code vs an independent erfc closed form and an "
             "independent Gauss-Legendre window integral): value, range [0,1], strict monotonicity in load / strength median, "
             "limit load_std -> 0 = pf_simple_load, convergence of pf_arbitrary_load and identity with the harness' own "
@@ -486,12 +489,12 @@ class C15(Prop):
         "lower_limit / upper_limit are modelled as the standardised window (pf_norm_load_code_truncation) and checked against an "
         "independent window integral although the property text does not mention them",
         "C15: admissible = medians and loads positive, strength_std > 0, load_std >= 0 (load_std = 0.0 is the deterministic load "
-        "since the follow-up repair - theorem pf_norm_load_code_zero_scatter -, it raised ZeroDivisionError after 2a91979 and "
+        "since /repo 2da931b - theorem pf_norm_load_code_zero_scatter -, it raised ZeroDivisionError after 2a91979 and "
         "returned 0.0 before; negative load_std raises ValueError); pf_norm_load takes scalars (quad is scalar; 1-element arrays "
         "raise on every version); pf_simple_load / pf_arbitrary_load arrays",
-        "C15: the model describes the REPAIRED pf_norm_load (/repo commits 2a91979, 04bca38 + tools/fixes/C15-pf-norm-load-followup.diff; "
+        "C15: the model describes the REPAIRED pf_norm_load (/repo commits 2a91979, 04bca38, 2da931b; "
         "branch rule of pfNormLoadCode: default limits and loc < 0, or direct integral above half the window's load mass -> through "
-        "the complement).  Without the follow-up: strength_std/load_std < 1.6e-6 is wrong by up to 3e-5 relative (class "
+        "the complement).  On a tree without 2da931b: strength_std/load_std < 1.6e-6 is wrong by up to 3e-5 relative (class "
         "pf-breakpoint-dropped), explicit windows with the load median above the strength median lose all relative accuracy and "
         "can come out negative (pf-window-cancellation), the result is an np.float64 on the loc < 0 path (pf-return-type); without "
         "04bca38 a break point candidate within a few ulp of +-16 gives 1-10 % error (pf-breakpoint-at-limit)",
@@ -636,7 +639,7 @@ class C15(Prop):
                 yield {"kind": "norm", "sm": 100.0, "ss": ss, "lm": lm, "ls": ls}
         yield {"kind": "api", "what": "shape-mismatch"}
         yield {"kind": "api", "what": "scatter"}
-        # fixed (follow-up of the fix review): very narrow strength, windows with a tiny content, return type
+        # fixed (follow-up of the fix review, /repo 2da931b): very narrow strength, windows with a tiny content, return type
         yield from gen_narrow_family()
         yield from gen_window_family()
         yield from gen_rtype_family()
@@ -757,7 +760,8 @@ class C15(Prop):
             if k == "arbk":
                 d = self._cmp_arb(a, b)
             elif k == "norm" and i == 1:
-                # the code-level model (window, cdf / sf branch, Gauss-Legendre): same tolerance, complement from the closed form
+                # the code-level model (window, branch rule of 2da931b: direct integral or load mass minus the sf integral,
+                # Gauss-Legendre): same tolerance, complement from the closed form
                 q = model_out[0].split()[1]
                 d = self._cmp_pf(f"{a} {q}", b, 1e-8, "code-level model pfNormLoadCode: ")
             elif k in ("limits", "rtype"):
